@@ -140,13 +140,16 @@ def agree(ref, got):
     return got == ref
 
 
+MIN_CASES = 30000  # what the random phase explores does not shrink on a loaded machine (time cap: 10x the budget)
+
+
 def run(limit_s, seed, do_exhaustive=False):
     rng = random.Random(seed)
     t0 = time.time()
     n = 0
     done_exh = False
     src = exhaustive() if do_exhaustive else None
-    while time.time() - t0 < limit_s:
+    while time.time() - t0 < limit_s or (n < MIN_CASES and time.time() - t0 < 10 * limit_s):
         if src is not None:
             spec = next(src, None)
             if spec is None:
